@@ -81,7 +81,7 @@ var clauseKeywords = map[string]bool{
 	"func": true, "iface": true, "extern": true, "lemma": true, "cover": true,
 	"use": true, "ghost": true, "requires": true, "ensures": true, "ensures-assumed": true, "maintains": true, "assert-before": true, "exit-update": true, "assumes": true, "snapshot": true, "modifies": true,
 	"decreases": true, "loop": true, "trusted": true, "inline": true, "noinline": true,
-	"implements": true, "tags": true, "params": true, "extra": true, "reveal": true,
+	"implements": true, "tags": true, "params": true, "extra": true, "reveal": true, "reveal-post": true, "reveal-before": true,
 }
 
 func splitKwTags(tok string) (string, []string) {
@@ -394,12 +394,21 @@ func (cs *ContractSet) parseFile(path string, pkgPath string, raw bool) error {
 				default:
 					return fmt.Errorf("%s: unknown loop clause %q", src(at), lkw)
 				}
-			case "reveal":
+			case "reveal", "reveal-post":
+				// reveal: definitional instance assumed at entry; reveal-post: at the return, in the final state
 				x, err := readSx()
 				if err != nil {
 					return err
 				}
-				cur.Extra["reveal"] = append(cur.Extra["reveal"], x)
+				cur.Extra[kw] = append(cur.Extra[kw], x)
+			case "reveal-before":
+				callee := toks[i]
+				i++
+				x, err := readSx()
+				if err != nil {
+					return err
+				}
+				cur.Extra[kw] = append(cur.Extra[kw], &Sx{IsL: true, List: []*Sx{{Atom: callee}, x}})
 			case "trusted":
 				cur.Trusted = true
 			case "inline":
